@@ -17,7 +17,21 @@ def c06(tier):
                  "verif-tag bridge tests in cmd/go-critic and cmd/gocritic, analyzer.VerifFilter hook"])
 
 
-CHECKS = {"C06": c06}
+def c10(tier):
+    vlib.standard(
+        "C10", tier, "c10", ["Properties_C10.v", "Proofs_Expr.v", "Proofs_BoolSimp.v", "Proofs_Rewrites.v"],
+        assume=[
+            "integers are unbounded (Z): the property allows integer reasoning to assume no overflow; the differential oracle keeps unsigned operands away from wrap-around",
+            "float64 is modelled as NaN | +-Inf | rational: ordering and NaN behaviour are exact, rounding is not modelled (every model witness is replayed on compiled Go by the oracle)",
+            "opaque calls are deterministic functions of their arguments and of the history of earlier calls; they do not panic",
+            "go/printer is modelled for single-line expressions of the fragment (Ident, BasicLit, Paren, Unary, Binary, Call, Index)",
+        ],
+        trusted=["converter go/ast+go/types -> Model_Expr terms (harness/internal/exprgen/conv.go); typeof of every converted root is re-checked in Coq",
+                 "go/parser, go/types, go/printer, astutil.Apply, typep.SideEffectFree, ruleguard/gogrep engine: modelled or monitored, not verified",
+                 "Go toolchain used to compile and run the differential programs"])
+
+
+CHECKS = {"C06": c06, "C10": c10}
 
 
 def run(prop, tier):
